@@ -73,6 +73,13 @@ pub fn shrink(orig: &Trace, rule: R, budget: usize, unknown: &dyn Fn(&Violation)
             }
             chunk /= 2;
         }
+        if cur.stdio_fails && execs < budget {
+            let mut cand = cur.clone();
+            cand.stdio_fails = false;
+            if try_accept(cand, &mut cur, &mut idx, &mut detail, &mut execs) {
+                progress = true;
+            }
+        }
         if cur.env_mode != 0 && execs < budget {
             let mut cand = cur.clone();
             cand.env_mode = 0;
@@ -311,6 +318,13 @@ fn simpler(e: &Ev, timeout: u128) -> Vec<Ev> {
                     let mut c = cycle.clone();
                     c.remove(i);
                     v.push(Ev::Bulk { n: *n, cycle: c });
+                }
+            }
+        }
+        Ev::Misplaced { n, offset } => {
+            for t in [1u8, n / 2, n - 1] {
+                if t >= 1 && t < *n {
+                    v.push(Ev::Misplaced { n: t, offset: *offset });
                 }
             }
         }
